@@ -469,3 +469,21 @@ func TestConcurrentQueries(t *testing.T) {
 		t.Errorf("expansion result %q", want)
 	}
 }
+
+// A whole-row reference to a function in FROM that returns a composite type has that type: unnest over an array of
+// node composites yields nodes, not anonymous records (what `UNWIND collect(n) AS m RETURN m` translates to).
+func TestSemanticsWholeRowOfCompositeFunction(t *testing.T) {
+	db := testDB()
+	res, out := db.Query(`with s0 as (select array_agg((n.id, n.kind_ids, n.properties)::nodecomposite order by n.id)::nodecomposite[] as ns from node n where n.id < 3) select i1 as m, i1.id from s0, unnest(ns) as i1`, nil)
+	if out != nil && !out.OK {
+		t.Fatalf("outcome: %+v", out)
+	}
+	if len(res.Rows) != 2 {
+		t.Fatalf("rows: %d", len(res.Rows))
+	}
+	for _, row := range res.Rows {
+		if _, isNode := row[0].(gmodel.NodeVal); !isNode {
+			t.Errorf("whole-row reference is %T, want gmodel.NodeVal", row[0])
+		}
+	}
+}
